@@ -461,10 +461,12 @@ pub fn c04(ctx: &mut Ctx) -> (u64, String) {
     edges += run_evsys::<Keyboard<Echo, ScancodeSet2>>(ctx, "bfs:Keyboard<Echo,Set2> x R-MODS", true, false, false, HandleControl::MapLettersToUnicode);
     edges += run_evsys::<EventDecoder<Echo>>(ctx, "bfs:EventDecoder<Echo> x R-MODS (with change_layout actions)", true, false, true, HandleControl::Ignore);
     edges += pump_events(ctx, true, false);
+    crate::props::tlaconf::mods_conformance(ctx);
     if ctx.thorough() {
         edges += run_evsys::<Keyboard<Echo, ScancodeSet1>>(ctx, "bfs:Keyboard<Echo,Set1> x R-MODS", true, false, false, HandleControl::Ignore);
     }
     c04_history_tree(ctx, if ctx.thorough() { 5 } else { 4 });
+    ctx.sample_run("kb:echo-0:set2:Map", &["key:RControl2:Down", "key:NumpadLock:Down", "mods", "key:RControl2:Up", "key:NumpadLock:Down", "mods", "key:LAlt:Down", "key:RAltGr:Down", "key:LAlt:Up", "mods", "key:PowerOnTestOk:SingleShot", "mods"]);
     ctx.sample(json!({"history": ["RControl2 Down", "NumpadLock Down", "RControl2 Up"], "reference": "numlock unchanged (Pause), rctrl2 released"}));
     ctx.sample(json!({"history": ["LAlt Down", "RAltGr Down", "LAlt Up"], "reference": "ralt still held, lalt released"}));
     (
@@ -1028,6 +1030,8 @@ pub fn c14(ctx: &mut Ctx) -> (u64, String) {
         c14_anylayout(ctx, true);
         c14_wrap(ctx);
     }
+    ctx.sample_run("ed:echo-0:Map", &["key:LShift:Down", "layout:1", "key:Q:Down", "key:Q:Up", "ctrl:Ignore", "key:Q:Down", "key:RControl2:Down", "key:NumpadLock:Down", "key:TooManyKeys:SingleShot"]);
+    ctx.sample_run("ed:any-uk105:Ignore", &["key:Q:Down", "layout:3", "key:Q:Down"]);
     ctx.sample(json!({"state": "mods=lshift+numlock mode=Map tag=1", "event": "Q Down", "reference": "Some(Echo[tag=1 key=Q mods=lshift+numlock mode=Map])"}));
     ctx.sample(json!({"state": "rctrl2 held", "event": "NumpadLock Down", "reference": "Some(RawKey(PauseBreak))"}));
     ctx.sample(json!({"ops": ["set_ctrl_handling(Ignore)", "A Down"], "reference": "layout consulted with mode=Ignore on the very next key"}));
